@@ -100,7 +100,8 @@ Definition coupled_shape (repaired : bool) : bool :=
   && list_eqb choke_eqb GenFlags.analysis_choke_calls (chokes_table repaired).
 Definition fx_coupled_now : bool := coupled_shape true.
 
-(* evaluated here (the table is regenerated on every run), so that the extracted constant is a record of booleans *)
+(* evaluated here (the tables are regenerated on every run), so that the extracted constant is a record of four
+   booleans and one list of type numbers (no Coq string reaches the extraction) *)
 Definition fixes_now : fixes :=
   Eval vm_compute in
     {| fx_regexp := fx_regexp_now; fx_gate := fx_gate_now; fx_coupled := fx_coupled_now;
@@ -123,8 +124,9 @@ Lemma tie_open_required :
 Proof. vm_compute. reflexivity. Qed.
 
 (* Whether the code is the fully repaired variant is decided in Properties/C17.v (C17_code_is_deployed_variant:
-   fixes_now = deployed, C17_code_is_repaired_variant: fx_regexp fixes_now = true); this file compiles for every state
-   of the code the translator can read, so that the extracted model always exists. *)
+   fixes_now = deployed); this file compiles whichever of the repairs are in the code (a reverted repair, a type
+   dropped from the gate list, an early return of another shape), so that the extracted model - the variant that
+   describes the changed code - still exists and the correspondence legs can look for a failing input. *)
 
 (* the statement of C17_flag_type_bijection, over the generated lists *)
 Lemma flag_type_bijection :
